@@ -5,10 +5,28 @@ that is merely restored keeps the time it was entered (the data-retention clock 
 fail-over).  The stored record /placement/<server> = {state, since} is read through the Backend dependency contract.
 """
 from pyvc_api import *   # noqa
-import c09_master        # noqa (Backend, ghost store, cp)
-import c11_loader        # noqa (Loader)
+import scheduler_core    # noqa  (class schemas of the scheduler model)
 
+# Stand-alone on purpose: c09_master / c11_loader carry summary contracts of the scheduling cycle that must not be
+# loaded next to the cycle's own contracts (./check C08 verifies the cycle itself).
 L = 'treadmill.scheduler.loader:Loader'
+cls('Backend', None, {})
+cls('Loader', 'treadmill.scheduler.loader', {'cell': 'Cell', 'servers': 'Dict[Name,Server]', 'backend': 'Backend'})
+ufunc('cp', ['Str', 'Str'], 'Str')
+opaque('treadmill.zknamespace.path')
+
+
+@spec
+def all_same():
+    return forall(lambda p: (zk_exists(p) == old(zk_exists(p))) and zk_content(p) == old(zk_content(p)), 'Str')
+
+
+contract('lib:Backend.get_default', types={'$params': ['self', 'path', 'default'], '$defaults': {'default': None},
+                                           'path': 'Str', 'return': 'Any'},
+         ensures=['implies(zk_exists(path), result == zk_content(path))', 'all_same()'], assumed=True,
+         note='the stored payload (the default if the node is missing)')
+contract('lib:Backend.exists', types={'$params': ['self', 'path'], 'path': 'Str', 'return': 'Bool'},
+         ensures=['result == zk_exists(path)', 'all_same()'], assumed=True)
 ufunc('tok_state', ['Any'], 'State')          # State(<payload field>)
 ufunc('tok_real', ['Any'], 'Real')            # a number stored in a payload
 ufunc('tok_empty', ['Any'], 'Bool')           # `not payload` (missing node / empty record)
